@@ -18,7 +18,7 @@ impl Property for C19 {
         "SEM programs with declared types, doc comments (0..2 `//` lines directly above; detached by a blank line; a block comment above; indented in bodies) and class references with 0..3 positional arguments, x every identifier occurrence x request ranges {whole file, every statement, every class-reference name, 16 random}. Hover: on every use = hover on its declaration (except fields overridden by let); on the name of a field override: the field's name and declared type, documented by the // lines above the declaration it points at (the let itself when it introduces the field in that record, else the field declaration); signature contains the name and the declared type (fields, template arguments, variables, defsets) or the kind keyword (class, def, multiclass, defm); document = exactly the adjacent // lines or None. Hints over the whole file: exactly one per positional argument (at its first byte, label contains the parameter name) and one per field override (right after the field name, label contains the field's declared type); for a sub-range: a subset of those, all positioned inside the range. Hints of multiclass references are not asserted. distinct = (seed, n); non-trivial = >=1 doc comment, >=1 positional argument hint and >=1 override hint".into()
     }
     fn families(&self, ctx: &Ctx) -> Vec<Family> {
-        vec![Family::new("sem-programs", ctx.tier.pick(500, 30000), |_c, rng, emit| {
+        vec![Family::new("sem-programs", ctx.tier.pick(500, 80000), |_c, rng, emit| {
             for _ in 0..50 {
                 if !emit(sem_case(rng, false)) {
                     return;
